@@ -1,36 +1,47 @@
 (* Component `lowerstmt` (DESIGN `C01_partial`): a compiler-correctness theorem for the statement
    fragment F_stmt.  Property theorems only (`Theorem ... exact ...` + `Print Assumptions`).
+   Whole programs (functions, calls, recursion, the entry image): Props/C01_program.v.
 
    Model:  Codegen/LowerStmtModel.v `lower_stmts` / `lower_body` = hidc's gen_stmts / gen_block on
-           F_stmt: int and bool locals (declaration, assignment, compound assignment), write(byte) /
-           writeln(), write / writeln of an int or a bool through the runtime library (write_int,
-           write_bool: the call protocol of eval_func_call), if / else, while / for with break and
-           continue, nested blocks with their own locals; expressions from the `lowerbool` fragment.  Tied TEXTUALLY to the compiler by
-           tools/corr_lowerstmt.py (whole function bodies, labels and the entry-guard constant).
-   Source semantics (Codegen/LowerStmtProofs.v §1, independent of the lowering): stores, ieval /
+           F_stmt: int and bool locals (declaration, assignment, compound assignment), divisions
+           `x = a / b`, `x %= b` with the checked build's division guard, write(byte) / writeln(),
+           write / writeln of an int or a bool through the runtime library (write_int, write_bool:
+           the call protocol of eval_func_call), calls of the program's functions, return, if / else,
+           while / for with break and continue, nested blocks with their own locals; expressions
+           from the `lowerbool` fragment.  Tied TEXTUALLY to the compiler by tools/corr_lowerstmt.py
+           (whole programs: state section, every function, labels and entry-guard constants).
+   Source semantics (Codegen/LowerStmtProofs.v 1, independent of the lowering): stores, ieval /
            bevals (wrap-around, signed comparison, short-circuit), the big-step relation
-           exec / execs with outcomes Normal / Break / Continue and output bytes; `istmts` is a
-           fuelled interpreter, sound for the relation.
+           exec / execs / callf with outcomes Normal / Break / Continue / Return v / Fault f and
+           output bytes; d is the stack budget of the current frame (used by calls only);
+           `istmts` / `icall` is a fuelled interpreter, sound for the relation.
    Reading the statements:
      wf_senv w fb S      the compile-time frame layout: every local's slot lies in ([fp]-top, [fp]-fb],
-                         distinct locals are disjoint
+                         distinct locals are disjoint (fb = w: the frame base is the return address)
+     tight w S           the frame holds exactly the return address and the locals in scope
      rep w R lo S s m    memory m holds store s in that frame: registers in bounds, the frame inside
                          the state section, each int local's word read signed = its value, each bool
-                         local's byte = its value (0 / 1)
+                         local's byte = its value (0 / 1); [ap] = lo (the stack area starts at lo)
      need_stmts S ss     the largest frame offset the lowered code reaches (STACK ROOM; it is also
                          the constant of hidc's entry stack guard, checked by the correspondence)
-     fagree m m'         m' differs from m at most in r0, r1, r2 and in [lo, [fp]-fb)
-     lib_hyps w R code   what a library call needs (only programs that call the library need it):
-                         hidc's register layout and the regenerated library loaded at a_lib R; the
-                         call case combines Sphinx/CallProtocol.call_idiom with
-                         StdlibInt.write_int_spec / StdlibBool.write_bool_spec, so the events are
-                         `decimal v` resp. "true" / "false"
+     frame_post out m m' what may have changed: r0, r1, r2 and [lo, [fp]-w) (on Return also the
+                         return-address slot, which receives the result; nothing is claimed on Fault)
+     post .. out m m'    Normal: m' represents the final store in the final environment; Break /
+                         Continue: the enclosing block's locals are represented; Return (Some v):
+                         the word at [fp]-w read signed is v
+     lib_hyps w R code   what a library call or a division guard needs: hidc's register layout and
+                         the regenerated library loaded at a_lib R; the call case combines
+                         Sphinx/CallProtocol.call_idiom with StdlibInt.write_int_spec /
+                         StdlibBool.write_bool_spec, so the events are `decimal v` resp. "true" /
+                         "false"; a zero divisor ends in the stub division_by_zero
+     no_calls            these statements are for code without calls of the program's functions
+                         (for those the callee's code must be there: Props/C01_program.v)
    All statements: every program of the fragment, every w >= 2, arbitrary surrounding code,
    arbitrary base address; terminating source runs (big-step); `runs` transports Halts both ways,
    so a non-halting continuation gives a non-halting start state (C01_stmts_no_new_halt). *)
 From Coq Require Import ZArith List Bool Lia.
 From HidV Require Import Machine Halts VM Driver WordLemmas MemLemmas GenTables GenStdlib OpTables Idioms
-                         StdlibBase LowerBoolModel LowerBoolProofs LowerStmtModel LowerStmtProofs.
+                         StdlibBase LowerBoolModel LowerBoolProofs LowerStmtModel LowerStmtSem LowerStmtProofs.
 Import ListNotations.
 Open Scope Z_scope.
 
@@ -40,76 +51,93 @@ Hypothesis Hw : 2 <= w.
 Variable code : Z -> option instr.
 Variable cmem : mem.
 Variable R : regmap.
-Variable lo fb : Z.
+Variable lo : Z.
 Variable ext : label -> Z.
 Hypothesis ext_range : forall x, 0 <= ext x < Machine.W w.
+Variable funs : list fundef.
 Notation act := (Machine.act w code cmem).
 Notation Halts := (HidV.Sphinx.Halts.Halts act).
 Notation runs := (HidV.Sphinx.Halts.runs act).
 Notation FP := (LowerBoolProofs.FP w R).
+Notation scoped := (ssscoped w (lib_hyps w R code) no_calls).
 
-Theorem C01_stmts_lowering_correct ss s0 evs s1 S st B m :
-  execs w ss s0 evs ONormal s1 ->
+Theorem C01_stmts_lowering_correct ss d s0 evs s1 S st B m :
+  execs w funs d ss s0 evs ONormal s1 ->
   let r := lower_stmts S None ss st in
   let C := fst (fst (fst r)) in
   let S' := snd (fst (fst r)) in
   code_at code B (resolve R ext B C) -> 0 <= B -> B + size C < Machine.W w ->
-  wf_senv w fb S -> rep w R lo S s0 m ->
-  ssscoped w (lib_hyps w R code) (length (ioffs S)) (length (boffs S)) false ss ->
+  wf_senv w w S -> tight w S -> rep w R lo S s0 m -> d = FP m - lo ->
+  scoped (length (ioffs S)) (length (boffs S)) false ss ->
   need_stmts S ss <= FP m - lo ->
   exists m', runs (mk B m) (map EOut evs) (mk (B + size C) m') /\
-             rep w R lo S' s1 m' /\ wf_senv w fb S' /\ fagree w R lo fb m m'.
-Proof. exact (@stmts_lowering_correct w Hw code cmem R lo fb ext ext_range ss s0 evs s1 S st B m). Qed.
+             rep w R lo S' s1 m' /\ wf_senv w w S' /\ fagree w R lo w m m'.
+Proof. exact (@stmts_lowering_correct w Hw code cmem R lo ext ext_range funs ss d s0 evs s1 S st B m). Qed.
 
-(* inside a loop: break / continue leave to the loop's labels, with the outer locals represented *)
-Theorem C01_stmts_lowering_correct_gen ss s0 evs out s1 S li st B m :
-  execs w ss s0 evs out s1 ->
+(* every outcome: break / continue leave to the loop's labels with the outer locals represented,
+   return leaves to the return address with the result in the return-address slot, a zero divisor
+   leaves to the stub division_by_zero *)
+Theorem C01_stmts_lowering_correct_gen ss d s0 evs out s1 S li st B m :
+  execs w funs d ss s0 evs out s1 ->
   let r := lower_stmts S li ss st in
   let C := fst (fst (fst r)) in
   let S' := snd (fst (fst r)) in
   code_at code B (resolve R ext B C) -> 0 <= B -> B + size C < Machine.W w ->
   match li with Some (lc, lb) => below st lc /\ below st lb | None => True end ->
-  wf_senv w fb S -> rep w R lo S s0 m ->
-  ssscoped w (lib_hyps w R code) (length (ioffs S)) (length (boffs S)) (match li with Some _ => true | None => false end) ss ->
+  wf_senv w w S -> tight w S -> rep w R lo S s0 m -> d = FP m - lo ->
+  scoped (length (ioffs S)) (length (boffs S)) (match li with Some _ => true | None => false end) ss ->
   need_stmts S ss <= FP m - lo ->
   exists m' pc',
     match out, li with
     | ONormal, _ => pc' = B + size C
     | OBreak, Some (_, lb) => pc' = ext lb
     | OContinue, Some (lc, _) => pc' = ext lc
+    | OReturn _, _ => pc' = Machine.lw w m (FP m - w)
+    | OFault ft, _ => pc' = a_lib R + fault_off ft
     | _, None => False
     end /\
-    runs (mk B m) (map EOut evs) (mk pc' m') /\ fagree w R lo fb m m' /\
-    match out with ONormal => rep w R lo S' s1 m' /\ wf_senv w fb S' | _ => rep w R lo S (trunc s0 s1) m' end.
-Proof. exact (@stmts_lowering_correct_gen w Hw code cmem R lo fb ext ext_range ss s0 evs out s1 S li st B m). Qed.
+    runs (mk B m) (map EOut evs) (mk pc' m') /\ frame_post w R lo w out m m' /\ post w R lo w S S' s0 s1 out m m'.
+Proof. exact (@stmts_lowering_correct_gen w Hw code cmem R lo ext ext_range funs ss d s0 evs out s1 S li st B m). Qed.
 
-Theorem C01_body_lowering_correct ss s0 evs s1 S st B m : w <= fb ->
-  execs w ss s0 evs ONormal s1 ->
-  let C := fst (lower_body S ss st) in
-  code_at code B (resolve R ext B C) -> 0 <= B -> B + size C < Machine.W w ->
-  wf_senv w fb S -> rep w R lo S s0 m ->
-  ssscoped w (lib_hyps w R code) (length (ioffs S)) (length (boffs S)) false ss ->
-  need_stmts S ss <= FP m - lo ->
-  let ra := Machine.lw w m (FP m - w) in
-  exists m', runs (mk B m) (map EOut evs) (mk ra m') /\ fagree w R lo fb m m' /\ Machine.lw w m' (a_r1 R) = ra.
-Proof. exact (@body_lowering_correct w Hw code cmem R lo fb ext ext_range ss s0 evs s1 S st B m). Qed.
-
-Theorem C01_stmts_no_new_halt ss s0 evs s1 S st B m :
-  execs w ss s0 evs ONormal s1 ->
+(* a zero divisor (checked build): the run is committed to the fault stub *)
+Theorem C01_stmts_fault_correct ss d s0 evs ft s1 S st B m :
+  execs w funs d ss s0 evs (OFault ft) s1 ->
   let C := fst (fst (fst (lower_stmts S None ss st))) in
   code_at code B (resolve R ext B C) -> 0 <= B -> B + size C < Machine.W w ->
-  wf_senv w fb S -> rep w R lo S s0 m ->
-  ssscoped w (lib_hyps w R code) (length (ioffs S)) (length (boffs S)) false ss ->
+  wf_senv w w S -> tight w S -> rep w R lo S s0 m -> d = FP m - lo ->
+  scoped (length (ioffs S)) (length (boffs S)) false ss ->
+  need_stmts S ss <= FP m - lo ->
+  exists m', runs (mk B m) (map EOut evs) (mk (a_lib R + fault_off ft) m').
+Proof. exact (@stmts_fault_correct w Hw code cmem R lo ext ext_range funs ss d s0 evs ft s1 S st B m). Qed.
+
+Theorem C01_body_lowering_correct ss d s0 evs s1 S st B m :
+  execs w funs d ss s0 evs ONormal s1 ->
+  let C := fst (lower_body S ss st) in
+  code_at code B (resolve R ext B C) -> 0 <= B -> B + size C < Machine.W w ->
+  wf_senv w w S -> tight w S -> rep w R lo S s0 m -> d = FP m - lo ->
+  scoped (length (ioffs S)) (length (boffs S)) false ss ->
+  need_stmts S ss <= FP m - lo ->
+  let ra := Machine.lw w m (FP m - w) in
+  exists m', runs (mk B m) (map EOut evs) (mk ra m') /\ agree w R lo (FP m) m m'.
+Proof. exact (@body_lowering_correct w Hw code cmem R lo ext ext_range funs ss d s0 evs s1 S st B m). Qed.
+
+Theorem C01_stmts_no_new_halt ss d s0 evs s1 S st B m :
+  execs w funs d ss s0 evs ONormal s1 ->
+  let C := fst (fst (fst (lower_stmts S None ss st))) in
+  code_at code B (resolve R ext B C) -> 0 <= B -> B + size C < Machine.W w ->
+  wf_senv w w S -> tight w S -> rep w R lo S s0 m -> d = FP m - lo ->
+  scoped (length (ioffs S)) (length (boffs S)) false ss ->
   need_stmts S ss <= FP m - lo ->
   (forall m', ~ Halts (mk (B + size C) m')) -> ~ Halts (mk B m).
-Proof. exact (@stmts_no_new_halt w Hw code cmem R lo fb ext ext_range ss s0 evs s1 S st B m). Qed.
+Proof. exact (@stmts_no_new_halt w Hw code cmem R lo ext ext_range funs ss d s0 evs s1 S st B m). Qed.
 End P.
 
 (* the interpreter is sound for the relation *)
-Theorem C01_interp_sound w fuel :
-  (forall s s0 e out s1, istmt w fuel s s0 = Some (e, out, s1) -> exec w s s0 e out s1) /\
-  (forall ss s0 e out s1, istmts w fuel ss s0 = Some (e, out, s1) -> execs w ss s0 e out s1).
-Proof. exact (@interp_sound w fuel). Qed.
+Theorem C01_interp_sound w funs fuel :
+  (forall d s s0 e out s1, istmt w funs fuel d s s0 = Some (e, out, s1) -> exec w funs d s s0 e out s1) /\
+  (forall d ss s0 e out s1, istmts w funs fuel d ss s0 = Some (e, out, s1) -> execs w funs d ss s0 e out s1) /\
+  (forall d g vs e res, icall w funs fuel d g vs = Some (e, res) -> callf w funs d g vs e res).
+Proof. exact (@interp_sound w funs fuel). Qed.
 
 (* the labels a lowered statement list defines are fresh and defined once *)
 Theorem C01_lower_stmts_labels_fresh ss S li st C S' st' ex :
@@ -120,7 +148,7 @@ Proof. exact (proj2 lower_stmts_defs ss S li st C S' st' ex). Qed.
 (* satisfiability: a concrete program (declarations, a loop left by break, if / else, a nested block
    with its own local, output), its source run, the theorem applied to it, and the resolved model
    output run end to end on the verified VM *)
-Example C01_source_run_sat : exists s1, execs 2 sx_ss sx_s0 sx_out ONormal s1.
+Example C01_source_run_sat : exists s1, execs 2 [] 20 sx_ss sx_s0 sx_out ONormal s1.
 Proof. exact sx_exec. Qed.
 Example C01_body_lowering_sat :
   exists m', HidV.Sphinx.Halts.runs (Machine.act 2 (code_of sx_prog) (zmem 0)) (mk 0 sx_mem) (map EOut sx_out) (mk sx_ra m').
@@ -134,7 +162,7 @@ Proof. exact body_vm_run_ex. Qed.
 
 (* a program that prints numbers: `int x = a * 100; writeln(x - 7); write(x > b);` with the library
    in the code: source run, the theorem, and the VM run ("493\n", "true", then the win flag) *)
-Example C01_lib_source_run_sat : exists s1, execs 2 lx_ss sx_s0 lx_out ONormal s1.
+Example C01_lib_source_run_sat : exists s1, execs 2 [] 50 lx_ss sx_s0 lx_out ONormal s1.
 Proof. exact lx_exec. Qed.
 Example C01_lib_hyps_sat : lib_hyps 2 lx_regs (code_of lx_prog).
 Proof. exact lx_lib_hyps. Qed.
@@ -150,6 +178,7 @@ Proof. exact lib_body_vm_run_ex. Qed.
 
 Print Assumptions C01_stmts_lowering_correct.
 Print Assumptions C01_stmts_lowering_correct_gen.
+Print Assumptions C01_stmts_fault_correct.
 Print Assumptions C01_body_lowering_correct.
 Print Assumptions C01_stmts_no_new_halt.
 Print Assumptions C01_interp_sound.
